@@ -70,8 +70,12 @@ Tasks == {RL(b) : b \in B} \cup {HT(a) : a \in 1..MaxAct} \cup {XT(k) : k \in 1.
 
 
 T0 == [pc |-> "none", b |-> "", e |-> 0, h |-> "", owner |-> NoTask, kids |-> <<>>, aw |-> 0, bud |-> 0, holds |-> FALSE,
-       fb |-> "", fe |-> 0, todo |-> <<>>, fh |-> "", fa |-> 0, out |-> "", lvl |-> 0]
+       fb |-> "", fe |-> 0, todo |-> <<>>, fh |-> "", fa |-> 0, out |-> "", lvl |-> 0, born |-> 0]
 Ev0 == [ty |-> "", par |-> 0, path |-> <<>>, sig |-> FALSE, proc |-> FALSE, res |-> <<>>, lvl |-> 0]
+
+\* asyncio starts new tasks in creation order (create_task -> call_soon, FIFO): `born` numbers tasks by creation
+Born == Cardinality({t \in Tasks : task[t].born > 0})
+FirstBorn(t) == \A u \in Tasks : task[u].pc \in {"new", "xnew"} => task[u].born >= task[t].born
 
 \* ------------------------------------------------------------------------
 \* derived fields of an event (bubus/models.py event_status etc., Appendix A.4)
@@ -184,7 +188,7 @@ DispatchFx(b, e, ce, ch, cb, inside, E0, isNew, ty, lvl) ==
       capRej == bounded /\ HardLimit > 0 /\ backlog >= HardLimit
       \* (6) _start(): a run loop task is created if the bus is not running
       startRL == ~running[b]
-      T1 == IF ~capRej /\ startRL THEN [task EXCEPT ![RL(b)] = [T0 EXCEPT !.pc = "new", !.b = b]] ELSE task
+      T1 == IF ~capRej /\ startRL THEN [task EXCEPT ![RL(b)] = [T0 EXCEPT !.pc = "new", !.b = b, !.born = Born + 1]] ELSE task
       R1 == IF ~capRej THEN [running EXCEPT ![b] = TRUE] ELSE running
       shutRej == ~capRej /\ shut[b]
       fullRej == ~capRej /\ ~shutRej /\ bounded /\ QueueCap > 0 /\ Len(q[b]) >= QueueCap
@@ -215,7 +219,7 @@ Release(T) ==
 BusyOn(E, H, Q, b) == Q[b] # <<>> \/ \E x \in Range(H[b]) : Status(E[x]) \in {"pending", "started"}
 
 RLStart(b) ==   \* first step of the run-loop task: fresh context (fix: F6), first queue poll started
-  /\ cur = NoTask /\ task[RL(b)].pc = "new"
+  /\ cur = NoTask /\ task[RL(b)].pc = "new" /\ FirstBorn(RL(b))
   /\ task' = [task EXCEPT ![RL(b)].pc = "poll"]
   /\ UNCHANGED <<nev, ev, q, unf, shut, hist, running, idle, semv, depth, lockq, nact, nx, cur, o>>
 
@@ -326,7 +330,7 @@ OwnerNext(t) ==
           /\ nact' = nact + 1
           /\ task' = [task EXCEPT ![t].pc = "waith", ![t].todo = Tail(@), ![t].fh = h.id, ![t].fa = nact + 1,
                                   ![HT(nact + 1)] = [T0 EXCEPT !.pc = "new", !.b = b, !.e = e, !.h = h.id, !.owner = t, !.bud = Budget,
-                                                              !.holds = task[t].holds, !.lvl = ev[e].lvl]]
+                                                              !.holds = task[t].holds, !.lvl = ev[e].lvl, !.born = Born + 1]]
           /\ cur' = NoTask
           /\ UNCHANGED <<q, unf, hist, running, o>>
   /\ UNCHANGED <<nev, shut, idle, semv, depth, lockq, nx>>
@@ -339,13 +343,14 @@ ParStart(t) ==
      /\ task' = [u \in Tasks |->
                    IF u = t THEN [task[t] EXCEPT !.pc = "pwait", !.todo = <<>>]
                    ELSE IF u[1] = "x" /\ u[2] \in (nx + 1)..(nx + Len(hs))
-                        THEN [T0 EXCEPT !.pc = "xnew", !.owner = t, !.fb = task[t].fb, !.fe = task[t].fe, !.todo = <<hs[u[2] - nx]>>, !.holds = task[t].holds]
+                        THEN [T0 EXCEPT !.pc = "xnew", !.owner = t, !.fb = task[t].fb, !.fe = task[t].fe, !.todo = <<hs[u[2] - nx]>>, !.holds = task[t].holds,
+                                        !.born = Born + (u[2] - nx)]
                         ELSE task[u]]
      /\ nx' = nx + Len(hs)
   /\ cur' = NoTask
   /\ UNCHANGED <<nev, ev, q, unf, shut, hist, running, idle, semv, depth, lockq, nact, o>>
 XStart(k) ==      \* first step of an execute_handler task
-  /\ cur = NoTask /\ k <= nx /\ task[XT(k)].pc = "xnew"
+  /\ cur = NoTask /\ k <= nx /\ task[XT(k)].pc = "xnew" /\ FirstBorn(XT(k))
   /\ task' = [task EXCEPT ![XT(k)].pc = "pb"]
   /\ cur' = XT(k)
   /\ UNCHANGED <<nev, ev, q, unf, shut, hist, running, idle, semv, depth, lockq, nact, nx, o>>
@@ -444,7 +449,7 @@ HEnterLine(a) == LET x == task[HT(a)] IN
                      rb |-> Last(ev[x.e].path), sync |-> FALSE, tmo |-> -1]       \* event.event_bus = last bus of the path (finding F9)
 
 HStart(a) ==
-  /\ cur = NoTask /\ a <= nact /\ task[HT(a)].pc = "new"
+  /\ cur = NoTask /\ a <= nact /\ task[HT(a)].pc = "new" /\ FirstBorn(HT(a))
   /\ task' = [task EXCEPT ![HT(a)].pc = "ops"]
   /\ cur' = HT(a)
   /\ o' = Obs(HEnterLine(a), ev, nev, hist, q)
@@ -577,7 +582,7 @@ DIdleBegin(i, b) ==
 DIdleStart(i) ==   \* wait_until_idle() begins with _start(); then it suspends in wait_for(queue.join())
   /\ cur = DT(i) /\ task[DT(i)].pc = "idle_start"
   /\ LET b == task[DT(i)].b
-         T1 == IF running[b] THEN task ELSE [task EXCEPT ![RL(b)] = [T0 EXCEPT !.pc = "new", !.b = b]] IN
+         T1 == IF running[b] THEN task ELSE [task EXCEPT ![RL(b)] = [T0 EXCEPT !.pc = "new", !.b = b, !.born = Born + 1]] IN
      /\ task' = [T1 EXCEPT ![DT(i)].pc = "idle_join"]
      /\ running' = [running EXCEPT ![b] = TRUE]
   /\ cur' = NoTask
